@@ -293,6 +293,11 @@ pub fn c11() -> Outcome {
     let cases: Vec<(&str, Instance)> = vec![
         ("active constraint", { let mut i = base(); i.constraints.push(con(1, Equality::EqualToZero, f_of(F::Linear(lin(&[(1, 1.0)], 0.0))))); i }),
         ("maximisation", { let mut i = base(); i.sense = v1::instance::Sense::Maximize as i32; i }),
+        // an instance whose objective field is unset (a feasibility problem) is refused for the same reasons
+        ("active constraint, objective unset", { let mut i = base(); i.objective = None; i.constraints.push(con(1, Equality::EqualToZero, f_of(F::Linear(lin(&[(1, 1.0), (2, 1.0)], -1.0))))); i }),
+        ("maximisation, objective unset", { let mut i = base(); i.objective = None; i.sense = v1::instance::Sense::Maximize as i32; i }),
+        ("active constraint, constant objective", { let mut i = base(); i.objective = Some(f_of(F::Constant(0.0))); i.constraints.push(con(1, Equality::LessThanOrEqualToZero, f_of(F::Linear(lin(&[(1, 1.0)], 0.0))))); i }),
+        ("maximisation, zero objective", { let mut i = base(); i.objective = Some(f_of(F::Constant(0.0))); i.sense = v1::instance::Sense::Maximize as i32; i }),
         ("integer variable used", { let mut i = base(); i.decision_variables[2] = dv(3, Kind::Integer, Some((0.0, 1.0))); i }),
         ("continuous variable used", { let mut i = base(); i.decision_variables[0] = dv(1, Kind::Continuous, Some((0.0, 1.0))); i }),
         // a used id that is not declared at all is not a binary variable of the instance either
@@ -529,6 +534,12 @@ pub fn c16() -> Outcome {
     fs.push(f_of(F::Quadratic(quad(&[(1, 3, 0.0), (2, 2, 1.5)], Some(lin(&[(3, 0.0), (1, -1.0)], 0.5))))));
     fs.push(f_of(F::Polynomial(poly(&[(&[1, 3], 0.0), (&[3, 3, 1], 0.0), (&[2], 2.0), (&[], 0.0)]))));
     fs.push(f_of(F::Linear(lin(&[(3, 0.0), (2, 1.0)], 0.0))));
+    // every multiplicity pattern of degree <= 4 (and one of degree 5): x^4, x^3 y, x^2 y^2, x^2 y z, mixed with lower-degree terms, ids in any order
+    fs.push(f_of(F::Polynomial(poly(&[(&[1, 1, 1, 1], 1.0)]))));
+    fs.push(f_of(F::Polynomial(poly(&[(&[3, 3, 3, 3], -1.0), (&[1, 1, 2, 2], 2.0), (&[2], 1.0), (&[], -1.0)]))));
+    fs.push(f_of(F::Polynomial(poly(&[(&[1, 3, 1, 1], 0.5), (&[2, 2, 2], -1.0)]))));
+    fs.push(f_of(F::Polynomial(poly(&[(&[2, 1, 2, 3], -1.5), (&[1, 1, 1], 1.0), (&[3, 3], 0.5)]))));
+    fs.push(f_of(F::Polynomial(poly(&[(&[2, 2, 2, 2, 2], 1.0), (&[1, 1, 1, 1], -0.25)]))));
     let bxs: Vec<[(f64, f64); 3]> = vec![[(-1.0, 2.0), (0.0, 1.0), (-2.0, -0.5)], [(-inf, 0.0), (0.5, 0.5), (-1.0, inf)], [(0.0, 0.0), (-3.0, 3.0), (1.0, 2.0)], [(-inf, inf), (0.0, 1.0), (0.0, 3.0)],
                                          [(1.0, 2.0), (0.0, 1.0), (0.0, inf)], [(0.0, 0.0), (0.0, 1.0), (-inf, inf)]];
     // the one documented panic (outside the quantifier): a monomial with a NON-ZERO coefficient multiplies the interval [0, 0] of one variable with an unbounded interval of another
@@ -678,6 +689,51 @@ pub fn c02() -> Outcome {
         if let Err(e) = check("variable + variable", &Function::from(&x + &y), &fx, Some(&fy), &|a, b| a + b) { fail!(n, d, "{e}"); }
         if let Err(e) = check("variable * variable", &Function::from(&x * &y), &fx, Some(&fy), &|a, b| a * b) { fail!(n, d, "{e}"); }
         if let Err(e) = check("parameter + variable", &Function::from(&p + &x), &fp, Some(&fx), &|a, b| a + b) { fail!(n, d, "{e}"); }
+    }
+    // every operator that v1_ext/decision_variable.rs and parameter.rs define: a variable / parameter on either side of +, * with f64, Linear, Quadratic, Polynomial, Function
+    // (typed operands with a non-zero constant, a linear part, a term in the variable itself), negation, and the conversions into each function type
+    {
+        let x = dv(1, Kind::Continuous, None); let mut p = v1::Parameter::default(); p.id = 3;
+        let fx = f_of(F::Linear(lin(&[(1, 1.0)], 0.0))); let fp = f_of(F::Linear(lin(&[(3, 1.0)], 0.0)));
+        let tl = lin(&[(1, 2.0), (2, -1.0)], 3.0);
+        let tq = quad(&[(1, 2, 1.5), (2, 2, -1.0), (3, 1, 0.5)], Some(lin(&[(1, 0.5), (3, 2.0)], -2.0)));
+        let tp = poly(&[(&[1, 2, 3], 1.0), (&[2], 2.0), (&[3, 3], -1.0), (&[], 4.0)]);
+        macro_rules! both { ($v:expr, $fv:expr, $vn:expr, $t:expr, $ft:expr, $tn:expr) => {{
+            n += 1;
+            let ft: Function = $ft;
+            if let Err(e) = check(&format!("{} + {}", $vn, $tn), &Function::from($v + $t.clone()), $fv, Some(&ft), &|a, b| a + b) { fail!(n, d, "{e}"); }
+            if let Err(e) = check(&format!("{} + {}", $tn, $vn), &Function::from($t.clone() + $v), $fv, Some(&ft), &|a, b| a + b) { fail!(n, d, "{e}"); }
+            if let Err(e) = check(&format!("{} * {}", $vn, $tn), &Function::from($v * $t.clone()), $fv, Some(&ft), &|a, b| a * b) { fail!(n, d, "{e}"); }
+            if let Err(e) = check(&format!("{} * {}", $tn, $vn), &Function::from($t.clone() * $v), $fv, Some(&ft), &|a, b| a * b) { fail!(n, d, "{e}"); }
+        }}; }
+        both!(&x, &fx, "variable", 2.5f64, f_of(F::Constant(2.5)), "f64");
+        both!(&x, &fx, "variable", tl, f_of(F::Linear(tl.clone())), "Linear");
+        both!(&x, &fx, "variable", tq, f_of(F::Quadratic(tq.clone())), "Quadratic");
+        both!(&x, &fx, "variable", tp, f_of(F::Polynomial(tp.clone())), "Polynomial");
+        both!(&p, &fp, "parameter", 2.5f64, f_of(F::Constant(2.5)), "f64");
+        both!(&p, &fp, "parameter", tl, f_of(F::Linear(tl.clone())), "Linear");
+        both!(&p, &fp, "parameter", tq, f_of(F::Quadratic(tq.clone())), "Quadratic");
+        both!(&p, &fp, "parameter", tp, f_of(F::Polynomial(tp.clone())), "Polynomial");
+        for g in [f_of(F::Constant(-1.5)), f_of(F::Linear(tl.clone())), f_of(F::Quadratic(tq.clone())), f_of(F::Polynomial(tp.clone()))] {
+            both!(&x, &fx, "variable", g, g.clone(), "Function");
+            both!(&p, &fp, "parameter", g, g.clone(), "Function");
+        }
+        n += 1;
+        if let Err(e) = check("variable + parameter", &Function::from(&x + &p), &fx, Some(&fp), &|a, b| a + b) { fail!(n, d, "{e}"); }
+        if let Err(e) = check("variable * parameter", &Function::from(&x * &p), &fx, Some(&fp), &|a, b| a * b) { fail!(n, d, "{e}"); }
+        if let Err(e) = check("parameter * variable", &Function::from(&p * &x), &fx, Some(&fp), &|a, b| a * b) { fail!(n, d, "{e}"); }
+        if let Err(e) = check("parameter + parameter", &Function::from(&p + &p), &fp, Some(&fp), &|a, b| a + b) { fail!(n, d, "{e}"); }
+        if let Err(e) = check("parameter * parameter", &Function::from(&p * &p), &fp, Some(&fp), &|a, b| a * b) { fail!(n, d, "{e}"); }
+        if let Err(e) = check("variable * itself", &Function::from(&x * &x), &fx, Some(&fx), &|a, b| a * b) { fail!(n, d, "{e}"); }
+        if let Err(e) = check("-variable", &Function::from(-&x), &fx, None, &|a, _| -a) { fail!(n, d, "{e}"); }
+        if let Err(e) = check("-parameter", &Function::from(-&p), &fp, None, &|a, _| -a) { fail!(n, d, "{e}"); }
+        if let Err(e) = check("Linear::from(variable)", &Function::from(v1::Linear::from(&x)), &fx, None, &|a, _| a) { fail!(n, d, "{e}"); }
+        if let Err(e) = check("Quadratic::from(variable)", &Function::from(v1::Quadratic::from(&x)), &fx, None, &|a, _| a) { fail!(n, d, "{e}"); }
+        if let Err(e) = check("Polynomial::from(variable)", &Function::from(v1::Polynomial::from(&x)), &fx, None, &|a, _| a) { fail!(n, d, "{e}"); }
+        if let Err(e) = check("Function::from(variable)", &Function::from(&x), &fx, None, &|a, _| a) { fail!(n, d, "{e}"); }
+        if let Err(e) = check("Quadratic::from(parameter)", &Function::from(v1::Quadratic::from(&p)), &fp, None, &|a, _| a) { fail!(n, d, "{e}"); }
+        if let Err(e) = check("Polynomial::from(parameter)", &Function::from(v1::Polynomial::from(&p)), &fp, None, &|a, _| a) { fail!(n, d, "{e}"); }
+        if let Err(e) = check("Function::from(parameter)", &Function::from(&p), &fp, None, &|a, _| a) { fail!(n, d, "{e}"); }
     }
     // operands of very different scale, same kind on both sides (no upcast, whose collect drops coefficients <= EPSILON - the documented dropping): a coefficient
     // below machine epsilon is still a coefficient of the operand, the product's coefficient (1.0) is not small, and a * b must equal b * a
